@@ -26,12 +26,14 @@ def tree(size):
     return {"f": payload(size), "d": {"x": b"1", "y": b"22"}, "old": b"OLD"}
 
 
-def script_for(verb, size, data_conn=True, noread=False):
+def script_for(verb, size, data_conn=True, noread=False, rest=0):
     ev = ["EPSV"]
     if data_conn:
         ev.append("@data")
         if noread:
             ev.append("@dstop")       # the data peer stays connected but does not read
+    if rest:
+        ev.append(f"REST {rest}")     # a restart offset: the worker has more to do before it touches the data connection
     if verb == "RETR":
         ev.append("RETR f")
     elif verb == "LIST":
@@ -100,7 +102,7 @@ def run_abort(case, chooser):
         chooser.active = False
         rig.ev(0, "@connect")
         rig.ev(0, "USER anonymous")
-        script = script_for(verb, size, data_conn, case.get("noread", False))
+        script = script_for(verb, size, data_conn, case.get("noread", False), case.get("rest", 0))
         state = {"armed": False, "sent": False, "early": False, "mark": 0}
 
         def inject():
@@ -179,13 +181,15 @@ def run_abort(case, chooser):
                     and not t.closed and t.get_extra_info("sockname")[1] != 2121 and t.peer is not spare_t]
             if mine:
                 problems.append({"kind": "data-connection-open-after-abort", "codes": codes})
-        if verb == "RETR" and s.data is not None:
+        if case.get("rest"):
+            pass        # (what a restarted transfer stores / delivers is C01's and C18's business)
+        elif verb == "RETR" and s.data is not None:
             got = s.data.received
             if not payload(size).startswith(got):
                 problems.append({"kind": "retr-not-a-prefix", "got": got.decode("latin-1")})
-        if verb == "STOR" and "/new" in snap and not payload(size).startswith(snap["/new"]):
+        if not case.get("rest") and verb == "STOR" and "/new" in snap and not payload(size).startswith(snap["/new"]):
             problems.append({"kind": "stor-not-a-prefix", "got": snap["/new"].decode("latin-1")})
-        if verb == "APPE":
+        if verb == "APPE" and not case.get("rest"):
             cur = snap.get("/old")
             if cur is None or not (cur.startswith(b"OLD") and payload(size).startswith(cur[3:])):
                 problems.append({"kind": "appe-not-a-prefix", "got": repr(cur)})
@@ -313,6 +317,16 @@ def build_items(tier):
                 case = {"verb": verb, "size": size, "k": k, "backend": "async", "followup": "again" if k % 2 else "pwd",
                         "data_conn": True}
                 items.append((case, 1, kinds))
+    # a restart offset before the transfer (executor backend: one more file operation between taking the data
+    # connection and using it)
+    for verb in ("RETR", "APPE"):
+        probe = {"verb": verb, "size": 3 * B, "k": 10 ** 9, "backend": "async", "followup": "pwd", "data_conn": True,
+                 "probe": True, "rest": 2}
+        n = run_abort(probe, Chooser())["events"]
+        for k in range(0, n + 2):
+            case = {"verb": verb, "size": 3 * B, "k": k, "backend": "async", "followup": "again" if k % 2 else "pwd",
+                    "data_conn": True, "rest": 2}
+            items.append((case, 1 if tier == "quick" else 3, kinds))
     # a second data connection made in advance for the next transfer, which then does without a new PASV/EPSV
     for verb in ("RETR", "STOR", "LIST"):
         size = 3 * B
